@@ -196,8 +196,13 @@ func rulesC15(w *World, r *Report) {
 					cnt++
 					c, isCall := ref.(*ssa.Call)
 					okUse := isCall && c.Call.IsInvoke() && c.Call.Value == ssa.Value(ld) && c.Call.Method.Name() == "Write" && leafSet[c]
+					okFact := "receiver of the checked Write call"
+					if !okUse && w.writerUseChecked(ld, ref, leafSet, map[*ssa.Parameter]bool{}) {
+						// handed down to a package function that uses it only as the receiver of a checked Write (rules_writerflow.go)
+						okUse, okFact = true, "handed to a package function whose parameter is only the receiver of a checked Write call"
+					}
 					r.add("C15.R3 the destination writer does not escape", fmt.Sprintf("%s · use #%d of the destination writer", fnName(fn), cnt), w.instrPos(ref), okUse,
-						map[bool]string{true: "receiver of the checked Write call", false: "the destination writer is handed to " + ref.String() + ": writes made there are outside the error/short-count discipline"}[okUse])
+						map[bool]string{true: okFact, false: "the destination writer is handed to " + ref.String() + ": writes made there are outside the error/short-count discipline"}[okUse])
 				}
 			}
 		}
@@ -336,16 +341,19 @@ func rulesC13(w *World, r *Report) {
 			if errIndex(cs.call.Call.Signature()) < 0 {
 				continue
 			}
-			rel := false
+			// the floor counts relay EDGES (site × callee that can relay a codec error): arms of a
+			// dispatch merged into one call through a function value (`container(source)` with
+			// container ∈ {e.writeList, e.writeMap, e.writeObject}) keep their edges
+			rel := 0
 			for _, cal := range w.calleesOf(cs.call) {
 				if relay[cal] && reach[cal] {
-					rel = true
+					rel++
 				}
 			}
-			if !rel {
+			if rel == 0 {
 				continue
 			}
-			n1++
+			n1 += rel
 			ok, fact := w.errConsumed(cs.call, errOpts{})
 			o := r.add("C13.R1 element error consumed", fnName(fn)+" · "+cs.key(), w.instrPos(cs.call), ok, fact)
 			o.Trivial = ok && len(fact) > 9 && fact[:9] == "forwarded"
@@ -497,6 +505,21 @@ func (w *World) ruleAlwaysWrites(r *Report, rule string) {
 				}
 				if sc := c.Call.StaticCallee(); sc != nil && aw[sc] {
 					ev[b] = true
+				} else if sc == nil && !c.Call.IsInvoke() {
+					// a call through a function value (table entry, method value chosen by a
+					// switch): a write when EVERY function the call graph resolves it to
+					// (wrappers looked through) is a writer that always writes
+					if cs := w.calleesOf(c); len(cs) > 0 {
+						all := true
+						for _, cal := range cs {
+							if !aw[cal] {
+								all = false
+							}
+						}
+						if all {
+							ev[b] = true
+						}
+					}
 				}
 			}
 		}
